@@ -18,7 +18,9 @@ POOL = ["NULL", "TRUE", "FALSE", "0", "1", "(-1)", "7", "0.0", "2.5", "(-1.5)", 
         "<<>>", "<<1, 2>>", "<<<>>>", "<<<'a' => 1>>>", "<**>", "<*x = 1*>", "fn(x) x", "//a.*//", "date('20200131')",
         # values whose rendering is long (error messages and stack traces abbreviate them)
         "'" + "long string " * 6 + "'", "['the first long element', 'the second long element', 'the third long element']",
-        "<<< " + ", ".join("'key%d' => %d" % (i, i) for i in range(20)) + " >>>"]
+        "<<< " + ", ".join("'key%d' => %d" % (i, i) for i in range(20)) + " >>>",
+        # objects that say how they are rendered - also when that fails
+        "<*_str_ = fn(self) 'OBJ'*>", "<*_str_ = fn(self) error 'S'*>"]
 PRELUDE = ""
 # cyclic (self-containing) data is not part of the pool: rendering, hashing and comparing it recurses without bound
 # (recorded finding C13-F11, probed by one program below)
